@@ -1,12 +1,13 @@
 import SimuVerif.Lemmas.RemeshMerge
+import SimuVerif.Lemmas.QSortSorted
 /-
   Part 9: the guard of the collapse.  `can_be_merged` walks the fans around the two end nodes (`get_connected_nodes`),
   sorts the two neighbour lists and counts the common neighbours; it answers `true` iff there are exactly two.
   Under a complete index and vertex-manifold end nodes this is the link condition `LinkCond` (`merge_guard_iff`).
 
-  `Array.qsort` has no sortedness lemma in core / Batteries / Mathlib at this version (only "is a permutation" is proved
-  in `RemeshRefine.lean`), so sortedness of the two sorted neighbour lists is the ONE explicit hypothesis `SortSpec`,
-  which the driver can evaluate per call (`chkSortSpec`).
+  `Array.qsort` has no sortedness lemma in core / Batteries / Mathlib at this version; "is a permutation" is proved in
+  `RemeshRefine.lean`, "is sorted" in `QSortSorted.lean`.  The guard theorems are stated with the hypothesis `SortSpecAt`
+  (sortedness of the two sorted neighbour lists of the call), which `sortSpecAt` discharges for every call.
 -/
 set_option linter.unusedSectionVars false
 set_option linter.unusedVariables false
@@ -244,8 +245,11 @@ theorem interSize_eq {a b : List Nat} (ha : a.Pairwise (· < ·)) (hb : b.Pairwi
 
 /-! ## 5. `sortNat` -/
 
-/-- the ONE fact about `Array.qsort` that is not proved: the sorted list is sorted -/
+/-- `sortNat` returns a sorted list (proved for every list: `sortSpec`) -/
 def SortSpec (l : List Nat) : Prop := (sortNat l).Pairwise (· ≤ ·)
+
+/-- **`sortNat` sorts** (`Array.qsort` on `Nat` with `<`, `QSortSorted.lean`) -/
+theorem sortSpec (l : List Nat) : SortSpec l := QS.qsort_sorted l.toArray
 
 theorem sortNat_perm (l : List Nat) : (sortNat l).Perm l := QS.qsort_toList_perm l _
 
@@ -568,10 +572,11 @@ theorem linkCond_iff (G : GuardFans c e kA kB FA NA FB NB) {t1 t2 : Tri}
 
 end GuardFans
 
-/-- sortedness of the two sorted neighbour lists of this call of `can_be_merged` (the one unproved fact about
-    `Array.qsort`; checked by the driver, `chkSortSpec`) -/
+/-- sortedness of the two sorted neighbour lists of this call of `can_be_merged` (holds for every call: `sortSpecAt`) -/
 def SortSpecAt (c : Cell R) (e : Edge) : Prop :=
   ∀ la lb, connectedNodes c e.n1 e = .ok la → connectedNodes c e.n2 e = .ok lb → SortSpec la ∧ SortSpec lb
+
+theorem sortSpecAt (c : Cell R) (e : Edge) : SortSpecAt c e := fun la lb _ _ => ⟨sortSpec la, sortSpec lb⟩
 
 /-- **the guard of the collapse is the link condition** (fan form of the hypotheses) -/
 theorem GuardFans.guard_iff {c : Cell R} {e : Edge} {kA kB : Nat} {FA NA FB NB : Nat → Nat}
